@@ -97,8 +97,26 @@ def main():
             print(f"selftest {cid}: {len(verdicts)} obligations, {'proved' if all_unsat else 'refuted' if refuted else 'undecided'}"
                   f" -> {'ok' if good else 'UNEXPECTED'}")
             ok = ok and good
-        for cid in [c for c, _ in cases] + ["T.bump"]:
+        # a trusted summary counts as proved only if another contract states ITS clauses on the same function (pyvc/contract.py)
+        C.contract("T.sum_x", file="hed/sample.py", func="bump", params={"x": "Int"}, returns="Int", trusted=True,
+                   ensures={"one_more": "result == x + 1"})
+        C.contract("T.sum_good", file="hed/sample.py", func="bump", params={"x": "Int"}, returns="Int",
+                   ghost={"not_at_call_sites": True, "discharges": "T.sum_x"}, ensures={"one_more": "result ==  x + 1", "more": "result > x"})
+        C.apply_discharges()
+        good1 = C.DISCHARGED.get("T.sum_x") == "T.sum_good"
+        C.CONTRACTS["T.sum_good"].ensures["one_more"] = "result >= x + 1"       # a weaker text under the same label must be refused
+        C.apply_discharges()
+        good2 = "T.sum_x" not in C.DISCHARGED
+        C.CONTRACTS["T.sum_good"].ensures["one_more"] = "result == x + 1"
+        C.CONTRACTS["T.sum_good"].requires.append("x > 0")                      # a proof under an extra precondition must be refused
+        C.apply_discharges()
+        good3 = "T.sum_x" not in C.DISCHARGED
+        print(f"selftest discharges: accepted={good1} weaker-refused={good2} extra-requires-refused={good3} -> "
+              f"{'ok' if good1 and good2 and good3 else 'UNEXPECTED'}")
+        ok = ok and good1 and good2 and good3
+        for cid in [c for c, _ in cases] + ["T.bump", "T.sum_x", "T.sum_good"]:
             del C.CONTRACTS[cid]
+        C.apply_discharges()
         return 0 if ok else 1
     finally:
         shutil.rmtree(d, ignore_errors=True)
